@@ -121,7 +121,7 @@ package keeper
 // Aggregation is to be run on a signing whose current attempt is complete and still has its interim
 // data; it touches only that signing's record (plus the owner's callback) and nothing on failure.
 // store invariant: a signing is filed under its own id and its group exists
-//@ spec wfSignings(s Store) Bool = tssParams(s).MaxSigningAttempt < MaxUint64 && (forall id Int :: has(s, types.SigningStoreKey(id)) ==> (signingAt(s, id).ID == id && has(s, types.GroupStoreKey(signingAt(s, id).GroupID)) && signingAt(s, id).CurrentAttempt < MaxUint64))
+//@ spec wfSignings(s Store) Bool = tssParams(s).MaxSigningAttempt <= MaxInt64 && tssParams(s).SigningPeriod <= MaxInt64 && (forall id Int :: has(s, types.SigningStoreKey(id)) ==> (signingAt(s, id).ID == id && has(s, types.GroupStoreKey(signingAt(s, id).GroupID)) && signingAt(s, id).CurrentAttempt < MaxUint64))
 //@ spec partialSigsOf(s Store, id Int, n Int) tss.Signatures uninterpreted
 //@ func (k Keeper) GetPartialSignatures
 //@ trusted
@@ -226,7 +226,7 @@ package keeper
 //@ ensures  err == nil ==> old(has(Store_tss, types.SigningStoreKey(signingID)))
 //@ ensures  err == nil ==> (let a = old(signingAt(Store_tss, signingID)).CurrentAttempt + 1 in a <= old(tssParams(Store_tss)).MaxSigningAttempt && signingAt(Store_tss, signingID).CurrentAttempt == a && signingAt(Store_tss, signingID).Status == types.SIGNING_STATUS_WAITING)
 //@ ensures  err == nil ==> (let a = old(signingAt(Store_tss, signingID)).CurrentAttempt + 1 in signingAt(Store_tss, signingID).ID == signingID && signingAt(Store_tss, signingID).GroupID == old(signingAt(Store_tss, signingID)).GroupID && signingAt(Store_tss, signingID).Message == old(signingAt(Store_tss, signingID)).Message)
-//@ ensures  err == nil ==> (let a = old(signingAt(Store_tss, signingID)).CurrentAttempt + 1 in has(Store_tss, types.SigningAttemptStoreKey(signingID, a)) && attemptAt(Store_tss, signingID, a).ExpiredHeight == wrapu64(wrapu64(ctx.BlockHeight()) + old(tssParams(Store_tss)).SigningPeriod) && attemptAt(Store_tss, signingID, a).Attempt == a && attemptAt(Store_tss, signingID, a).SigningID == signingID)
+//@ ensures  err == nil ==> (let a = old(signingAt(Store_tss, signingID)).CurrentAttempt + 1 in has(Store_tss, types.SigningAttemptStoreKey(signingID, a)) && attemptAt(Store_tss, signingID, a).ExpiredHeight == ctx.BlockHeight() + old(tssParams(Store_tss)).SigningPeriod && attemptAt(Store_tss, signingID, a).Attempt == a && attemptAt(Store_tss, signingID, a).SigningID == signingID)
 //@ ensures  err == nil ==> (let a = old(signingAt(Store_tss, signingID)).CurrentAttempt + 1 in (let ne = dec(types.SigningExpirations, Store_tss[types.SigningExpirationsStoreKey]).SigningExpirations in len(ne) == len(old(expirationsOf(Store_tss))) + 1 && ne[len(ne) - 1] == types.SigningExpiration{signingID, a}))
 //@ loop 0: invariant Store_tss == Store_tss
 
@@ -449,3 +449,9 @@ package keeper
 //@ ensures err == nil <==> (len(round1Info.CoefficientCommits) == group.Threshold && has(Store_tss, types.DKGContextStoreKey(group.ID))
 //@        && tss.validOneTimeSig(round1Info.MemberID, Store_tss[types.DKGContextStoreKey(group.ID)], round1Info.OneTimeSignature, round1Info.OneTimePubKey)
 //@        && tss.validA0Sig(round1Info.MemberID, Store_tss[types.DKGContextStoreKey(group.ID)], round1Info.A0Signature, round1Info.CoefficientCommits[0]))
+
+// ---- C10: the only writer of the parameter record stores validated parameters only (backs the parameter part of wfSignings)
+//@ func (k Keeper) SetParams
+//@ modifies Store_tss
+//@ ensures err == nil ==> Store_tss == store(old(Store_tss), types.ParamsKey, enc(p)) && 1 <= p.SigningPeriod && p.SigningPeriod <= MaxInt64 && p.MaxSigningAttempt <= MaxInt64
+//@ ensures err != nil ==> Store_tss == old(Store_tss)
